@@ -127,3 +127,34 @@ def read_payloads(stem):
     for fn in raw_files(stem):
         blocks.extend(ref_guppi.parse_file(fn))
     return b''.join(b['data'] for b in blocks), blocks
+
+
+def earlier_use(stem, c, nfiles=1):
+    """
+    History step shared by the RAW-file checks: the SAME path held a different recording earlier in this process, and
+    every reader of the library was used on it. Written by the reference writer (no recording needed), read through
+    the library (results deliberately not judged here), then removed. Orientation, centre frequency, sizes, bit width,
+    DIRECTIO and block count all differ from whatever configuration c will record next.
+    """
+    import numpy as np
+    from setigen.voltage import raw_utils
+    from vp import ref_guppi
+    sign = -1.0 if c.get('ascending', True) else 1.0
+    nbits = 4 if c.get('nbits', 8) == 8 else 8
+    nchan, npol_h, ntime = 3, 4, 8
+    payload = bytes((np.arange(nchan * ntime * 2 * 2 * nbits // 8) % 251).astype(np.uint8))
+    hdr = dict(BACKEND='GUPPI', TELESCOP='DECOY', OBSFREQ=1234.5, OBSBW=sign * 1.5, CHAN_BW=sign * 0.5, OBSNCHAN=nchan,
+               NPOL=npol_h, NBITS=nbits, TBIN=2e-6, BLOCSIZE=len(payload), SCANLEN=4.8e-5, PKTIDX=0,
+               DIRECTIO=0 if c.get('directio', 1) else 1)
+    for i in range(nfiles):
+        ref_guppi.write_file(f'{stem}.{i:04d}.raw', [(dict(hdr, PKTIDX=k), payload) for k in range(3)])
+    fn = f'{stem}.0000.raw'
+    for f, args in ((raw_utils.read_header, (fn,)), (raw_utils.get_raw_params, (stem,)),
+                    (raw_utils.get_blocks_in_file, (fn,)), (raw_utils.get_blocks_per_file, (stem,)),
+                    (raw_utils.get_total_blocks, (stem,))):
+        try:
+            f(*args)
+        except Exception:       # noqa: BLE001 - warming only; these readers are judged by C04/C20 on their own files
+            pass
+    for i in range(nfiles):
+        os.remove(f'{stem}.{i:04d}.raw')
